@@ -608,6 +608,26 @@ func do_RETURN_VALUE(vm *Vm, arg int32) error {
 	return nil
 }
 
+// stopIterationValue returns the value carried by a StopIteration
+// error, or None if it carries none
+func stopIterationValue(err error) py.Object {
+	var value py.Object
+	switch e := err.(type) {
+	case py.ExceptionInfo:
+		value = e.Value
+	case *py.ExceptionInfo:
+		value = e.Value
+	case *py.Exception:
+		value = e
+	}
+	if exc, ok := value.(*py.Exception); ok {
+		if args, ok := exc.Args.(py.Tuple); ok && len(args) > 0 {
+			return args[0]
+		}
+	}
+	return py.None
+}
+
 // Pops TOS and delegates to it as a subiterator from a generator.
 func do_YIELD_FROM(vm *Vm, arg int32) error {
 
@@ -626,6 +646,9 @@ func do_YIELD_FROM(vm *Vm, arg int32) error {
 		if !py.IsException(py.StopIteration, err) {
 			return err
 		}
+		// the value of the yield from expression is the value
+		// carried by the StopIteration of the subiterator
+		vm.SET_TOP(stopIterationValue(err))
 		return nil
 	}
 	// x remains on stack, retval is value to be yielded
